@@ -128,7 +128,7 @@ def resolve_field(idx, tyname, cfield, depth=0):
             return [want]
     for f in it["fields"]:
         if f["name"].startswith("__bindgen_anon_"):
-            inner = f["ty"].replace(" ", "")
+            inner = f["ty"].replace(" ", "").replace("root::", "")
             sub = resolve_field(idx, inner, cfield, depth + 1)
             if sub:
                 return [f["name"]] + sub
@@ -147,7 +147,7 @@ def field_ty(idx, tyname, path):
         if f is None:
             return None
         ty = f["ty"].replace(" ", "")
-        cur = ty
+        cur = ty.replace("root::", "")
     return ty
 
 
